@@ -94,14 +94,26 @@ func seqEngine(raw json.RawMessage, _ []string) (any, error) {
 					// ---- complete iteration
 					var got []*syntax.Stmt
 					var gerr error
+					var atYield [][]byte // whole+comments only: what each statement looked like when it was yielded
 					for s, err := range syntax.NewParser(opts...).StmtsSeq(readerFor(mode, src)) {
 						if err != nil {
 							gerr = err
 							break
 						}
 						got = append(got, s)
+						if mode == "whole" && keep {
+							b, _ := json.Marshal(AbsPos(s))
+							atYield = append(atYield, b)
+						}
 					}
 					runs++
+					for i, b := range atYield {
+						// a consumer that uses the statement inside the loop body must see the finished statement
+						if now, _ := json.Marshal(AbsPos(got[i])); !bytes.Equal(b, now) {
+							add(ln, "seq-mutated-after-yield", tag, sigTreeDiff(normJSON(AbsPos(got[i])), jsonValue(b)))
+							break
+						}
+					}
 					if gerr != nil {
 						add(ln, "seq-error", tag, gerr.Error())
 						continue
@@ -165,6 +177,14 @@ func diffStmts(want, got []*syntax.Stmt) string {
 		}
 	}
 	return ""
+}
+
+func jsonValue(b []byte) any {
+	var out any
+	if json.Unmarshal(b, &out) != nil {
+		return nil
+	}
+	return out
 }
 
 // normJSON round-trips a value through encoding/json so that it compares with decoded vectors.
